@@ -6,7 +6,7 @@ from oracle_util import *  # noqa
 from protocol import from_real
 
 ID = "C11"
-LEAN_MODULE = ["SCoda.Props.C11", "SCoda.Props.C11b", "SCoda.Props.C11c"]
+LEAN_MODULE = ["SCoda.Props.C11", "SCoda.Props.C11b", "SCoda.Props.C11c", "SCoda.Props.C11d"]
 CLAUSES = [
     ("every public operation with integer arguments leaves every time value in both views integer-typed: a float-taint typing "
      "of all functions of the modelled files, regenerated from the source on every run (Gen/TaintFacts.lean), with a certificate "
@@ -15,13 +15,26 @@ CLAUSES = [
      "the duration and velocity-bin helpers, tick formatted into a token) is maybe-float; in addition the Lean model is "
      "Int-typed and the correspondence prints Python times with their type",
      ["SCoda.C11.cert_closed", "SCoda.C11.no_float_reaches_a_tick", "SCoda.C11.sinks_seen", "SCoda.C11.float_fn_found",
-      "SCoda.C11.least_le_cert"]),
+      "SCoda.C11.least_le_cert", "SCoda.C11d.typing_sound_for_least_solution", "SCoda.C11d.no_float_reaches_a_tick_least",
+      "SCoda.C11d.no_float_reaches_a_tick_iterative"]),
     ("the capacity / bar-length expressions of Bar, the bar splitter and the tokeniser are int-typed and equal the model's floor division (PyNum); int()/round() always return ints",
      ["SCoda.C11.barCapacityPy_int", "SCoda.C11.splitBarLenPy_int", "SCoda.C11.tokCapacityPy_int", "SCoda.C11.barCapacityPy_eq",
       "SCoda.C11.splitBarLenPy_eq", "SCoda.C11.tokCapacityPy_eq", "SCoda.C11.pyround_int", "SCoda.C11.pyint_int"]),
-    ("generated fact: the default step sizes, note values and velocity bins returned by the real helper functions at generation time are all "
-     "of Python type int (the booleans are computed by the translator; the theorem only re-reads them)",
-     ["SCoda.C11.defaults_int_typed"]),
+    ("every float site transcribed operator by operator in the int/float tower (Model/PyNumSites.lean, file:line cited), for all integer arguments: int(a/d) truncates "
+     "towards zero (all signs); the capacity expressions of bar.py, sequence.py and the tokeniser equal .int (tdiv) and, for non-negative numerators and positive "
+     "denominators, the model's floor division (without the sign hypothesis refuted: n = -1, d = 128); pad amount, eighth scaling with its is_integer guard, the "
+     "x/2 site under its guard, round() on load, int() on save, get_note_durations / tuplet / dotted durations as integer loops",
+     ["SCoda.C11d.int_of_quotient_truncates", "SCoda.C11d.capacity_sites", "SCoda.C11d.capacity_sites_eq_model", "SCoda.C11d.capacity_eq_model_statement_false",
+      "SCoda.C11d.pad_amount_site", "SCoda.C11d.eighth_scaling_site", "SCoda.C11d.half_site", "SCoda.C11d.load_site", "SCoda.C11d.save_site",
+      "SCoda.C11d.note_durations_site", "SCoda.C11d.tuplet_dotted_sites"]),
+    ("every token that embeds a tick renders it as an integer: each token tokenise emits has rest / value / velocity / track fields that are the model's Int ticks "
+     "(members of steps / values / bins, note-off minus note-on); on real Strings, splitting render t at '-' and '_' gives generated prefixes and non-empty all-digit "
+     "fields that read back as those Ints (non-negative configuration and channels); no rendered token contains '.', 'e' or any non [0-9A-Za-z_-] character",
+     ["SCoda.C11d.emitted_fields_are_model_ticks", "SCoda.C11d.tokens_render_integers", "SCoda.C11d.render_has_no_float_syntax"]),
+    ("the default step sizes, note values and velocity bins (n = 1..64) returned by the real helper functions at generation time, emitted as DATA with the Python "
+     "type of every element (Gen/SettingsTyped.lean): Lean decides that every element is int-typed and that the typed tables are the tables the models use; the "
+     "PyNum transcription of get_default_step_sizes / get_default_note_values / get_velocity_bins, evaluated by the kernel, reproduces value and type of every element",
+     ["SCoda.C11d.defaults_int_typed_data", "SCoda.C11d.defaults_agree_with_numeric_tower", "SCoda.C11.defaults_int_typed"]),
 ]
 RULE = ("histories of <=6 (quick) / <=12 (thorough) public operations over integer-tick inputs, then bars (short, unequal "
         "tracks), compositions, tokenise/detokenise of the result; the canonical form prints every time with its Python type; "
